@@ -176,7 +176,7 @@ func C17(r *core.Run) {
 			return verdict(ok, false, true, why, len(o.Out))
 		case "generate include pairs":
 			// suffix replacement walks the included lines once more
-			os.WriteFile(filepath.Join(wd, "regex-assembly/include/long.ra"), []byte(c17Place(c.Pos, "x"+long, "sentinelone", "sentineltwo", c.FinalNL)), 0o644)
+			os.WriteFile(filepath.Join(wd, "regex-assembly/include/long.ra"), []byte(c17Place(c.Pos, "x"+long+"\nw", "sentinelone", "sentineltwo", c.FinalNL)), 0o644)
 			o := root.Generate("before\n##!> include long -- one uno aa bb\nafter\n")
 			if o.Kind != inproc.OK {
 				return verdict(false, true, true, "", 0)
@@ -185,7 +185,7 @@ func C17(r *core.Run) {
 			if len(long) >= 2 {
 				entry = "x" + long[:len(long)-2] + "bb"
 			}
-			ok, why := matchAll(o.Out, entry, "sentineluno", "sentineltwo", "before", "after")
+			ok, why := matchAll(o.Out, entry, "w", "sentineluno", "sentineltwo", "before", "after")
 			return verdict(ok, false, true, why, len(o.Out))
 		case "generate segment":
 			// the lines form a segment that a concatenation marker ends (top level and stored)
@@ -249,7 +249,7 @@ func C17(r *core.Run) {
 			return verdict(sameLines(x, string(b)), false, true, fmt.Sprintf("formatted file has %d bytes, input %d: directive text lost", len(b), len(x)), len(b))
 		case "format":
 			p := filepath.Join(wd, "regex-assembly/123456.ra")
-			x := raHeader1 + "\n" + raHeader2 + "\n\n" + c17Place(c.Pos, "  x"+long, "##!> assemble", "  ##!<", c.FinalNL)
+			x := raHeader1 + "\n" + raHeader2 + "\n\n" + c17Place(c.Pos, "  x"+long+"\n##! between\n  x"+long, "##!> assemble", "  ##!<", c.FinalNL)
 			os.WriteFile(p, []byte(x), 0o644)
 			fr := root.Format(p, false)
 			b, _ := os.ReadFile(p)
